@@ -9,6 +9,8 @@ import (
 	"fmt"
 	"math/big"
 	"math/rand"
+	"os"
+	"runtime/debug"
 	"sync/atomic"
 
 	"perun.network/go-perun/channel"
@@ -324,12 +326,32 @@ func NewExec(w *World, d Driver) *Exec {
 	return &Exec{W: w, D: d, M: Model{Phase: channel.InitActing}}
 }
 
+// errNarrowBase: a successor was asked of an ill-dimensioned state (a forced narrow state became
+// current or staged). The property says nothing about what follows such a state: the step is
+// skipped, and this is not counted as a harness failure.
+var errNarrowBase = fmt.Errorf("successor of an ill-dimensioned state")
+
+// NarrowSkips counts steps skipped for errNarrowBase.
+var NarrowSkips int64
+
+func narrow(s *channel.State, n int) bool {
+	for _, row := range s.Balances {
+		if len(row) < n {
+			return true
+		}
+	}
+	return false
+}
+
 func inS(p channel.Phase) bool {
 	return p == channel.InitSigning || p == channel.Signing || p == channel.Progressing
 }
 
 // successor builds a candidate successor of base.
 func (e *Exec) successor(base *channel.State, class int) (*channel.State, channel.Index) {
+	if narrow(base, e.W.N()) {
+		panic(errNarrowBase)
+	}
 	s := base.Clone()
 	s.Version = base.Version + 1
 	s.IsFinal = false
@@ -390,6 +412,14 @@ func (e *Exec) Apply(op Op) (ret *Step) {
 	// implementation may be in a state the model has no picture of. Such a step is skipped and counted.
 	defer func() {
 		if p := recover(); p != nil {
+			if p == any(errNarrowBase) {
+				atomic.AddInt64(&NarrowSkips, 1)
+				ret = &Step{Op: op, Applicable: false}
+				return
+			}
+			if os.Getenv("MEXPLORE_DEBUG") != "" && atomic.LoadInt64(&HarnessPanics) < 3 {
+				fmt.Printf("HARNESS PANIC %v op=%v\n%s\n", p, op, debug.Stack())
+			}
 			atomic.AddInt64(&HarnessPanics, 1)
 			ret = &Step{Op: op, Applicable: false}
 		}
